@@ -319,6 +319,11 @@ class Prog:
             a, b = b, a
         if v.endswith("%") and "0.5" in step:
             step = ""
+        if self.rng.random() < 0.15 and "-1" not in step and "0.5" not in step:
+            # the start value is assigned before the limit and the step are evaluated: both may mention the loop variable
+            b = self.pick(["%s+%s" % (v, b), "%s*2" % v, "2*%s+1" % v])
+            if step and self.rng.random() < 0.5:
+                step = " STEP %s" % self.pick(["ABS(%s)+1" % v, "1+%s*0" % v])
         head = "FOR %s=%s TO %s%s" % (v, a, b, step)
         self.active_loop_vars.append(v)
         form = self.rng.random()
